@@ -4,6 +4,7 @@ import DaskModel.Model.Annot
 import DaskModel.Model.HLG
 import DaskModel.Model.Elemwise
 import DaskModel.Model.MapBlocks
+import DaskModel.Model.Meta
 import DaskModel.Generated.FuseRules
 open Dask
 
@@ -303,9 +304,40 @@ def hLoopDims : Handler := handler fun a => match a with
   | [m, n] => do pure (SExp.ofNats (loopDims (← m.toNat?) (← n.toNat?)))
   | _ => none
 
+/-! C25: pipeline chunk metadata -/
+open Dask.Meta in
+partial def toProg? : SExp → Option Prog
+  | .list [.sym "leaf", c] => do pure (.leaf (← c.toNatss?))
+  | .list [.sym "ew", a, b] => do pure (.ew (← toProg? a) (← toProg? b))
+  | .list [.sym "T", p, a] => do pure (.T (← p.toNats?) (← toProg? a))
+  | .list [.sym "drop", k, a] => do pure (.drop (← k.toNat?) (← toProg? a))
+  | .list [.sym "keep", k, a] => do pure (.keep (← k.toNat?) (← toProg? a))
+  | .list [.sym "new", k, a] => do pure (.new (← k.toNat?) (← toProg? a))
+  | .list [.sym "concat", k, a, b] => do pure (.concat (← k.toNat?) (← toProg? a) (← toProg? b))
+  | .list [.sym "stack", k, a, b] => do pure (.stack (← k.toNat?) (← toProg? a) (← toProg? b))
+  | _ => none
+
+/-- `(metachunks prog)` ↦ `(ok ((chunks…)…))` | `(raised)` -/
+def hMetaChunks : Handler := handler fun a => match a with
+  | [p] => do
+    let p ← toProg? p
+    pure (okOr ((Dask.Meta.lazyChunks p).map SExp.ofNatss))
+  | _ => none
+
+/-- `(metablocks prog)` ↦ `true` iff the block lengths the kernels produce equal the lazy chunks -/
+def hMetaBlocks : Handler := handler fun a => match a with
+  | [p] => do
+    let p ← toProg? p
+    pure (SExp.ofBool (match Dask.Meta.lazyChunks p, Dask.Meta.blockLens p with
+      | some c, some l => c == l
+      | none, _ => true
+      | _, _ => false))
+  | _ => none
+
 end HlgDrv
 
 def table : List (String × Handler) := [
+  ("metachunks", HlgDrv.hMetaChunks), ("metablocks", HlgDrv.hMetaBlocks),
   ("mbplan", HlgDrv.hMbPlan), ("blockinfo", HlgDrv.hBlockInfo), ("loopdims", HlgDrv.hLoopDims),
   ("bshapes", HlgDrv.hBShapes), ("cbd", HlgDrv.hCbd), ("unify", HlgDrv.hUnify), ("argpos", HlgDrv.hArgPos),
   ("bdims", HlgDrv.hBdims), ("makedims", HlgDrv.hMakeDims), ("coordmap", HlgDrv.hCoordMap),
